@@ -242,3 +242,103 @@ Definition total_sel (gfast : bool) (t : list row) : Z :=
 Definition total_range_size (t : list row) : Z := total_sel (all_gaps total_size_bp t) t.
 
 End Intervals.
+
+(* ==== GENOME LEVEL ===========================================================
+   A table over several chromosomes as the public methods of GenomicArray see it.
+   A genome row is a row whose payload starts with the chromosome name:
+   (start, end, (chromosome, other fields)); a genome table is `list (g_row A)` in
+   table order.  The per-chromosome functions above are applied to
+   `filter (g_on c) t`, i.e. literally to a selection `filter sel whole` of the whole
+   table, which is the shape the per-chromosome theorems (Props/C06.v) speak about.
+
+   What the code does across chromosomes (skgenome/merge.py, subtract.py,
+   intersect.by_shared_chroms, gary.py):
+   * merge / flatten: the fast path is decided on the WHOLE table in table order
+     (coordinates of different chromosomes are compared with one another); the slow
+     path sorts by (chromosome NAME, start, end), groups by chromosome in order of
+     first appearance (= lexicographic order of the names after that sort), works
+     per chromosome, concatenates, and re-orders the result by a STABLE sort on
+     sorter_chrom(chromosome);
+   * subtract: `other` empty -> the table itself; otherwise the chromosomes of the
+     table in order of first appearance (groupby(sort=False)), each with all its
+     rows, each row cut by the overlapping rows of `other` on that chromosome; no
+     final sort;
+   * intersection(mode="trim"): the chromosomes of `other` in order of first
+     appearance, each query row of `other` in turn; a chromosome present in only one
+     table contributes nothing; no final sort;
+   * subdivide: row by row on merge(table); resize_ranges: row by row, the upper clip
+     looked up by chromosome name; total_range_size: on merge(table, bp=1).
+   No proofs here (Proofs/IvGenome.v). *)
+From CNV Require Import Model.Chromsort Model.IvCombine.
+
+Definition g_row (A : Type) : Type := @row (string * A).
+Definition g_chrom {A} (r : g_row A) : string := fst (pay r).
+Definition g_on {A} (c : string) (r : g_row A) : bool := String.eqb (g_chrom r) c.
+
+(* chromosome names in order of first appearance: groupby(sort=False) / unique() *)
+Definition g_chroms {A} (t : list (g_row A)) : list string := uniq (map g_chrom t).
+
+(* Python str <= str (by code point; bytes for ASCII / UTF-8) and sorter_chrom order *)
+Definition g_str_leb (a b : string) : bool :=
+  match String.compare a b with Gt => false | _ => true end.
+Definition g_key_leb (a b : string) : bool := ckey_leb (chrom_key a) (chrom_key b).
+
+(* order of the chromosome blocks after merge()/flatten()'s slow path *)
+Definition g_order {A} (t : list (g_row A)) : list string :=
+  stable_sort g_key_leb (stable_sort g_str_leb (g_chroms t)).
+
+Section Genome.
+Context {A : Type} (comb : A -> list A -> A).
+Notation grow := (g_row A).
+
+(* get_combiners: "chromosome" -> first_of; the other fields through `comb` *)
+Definition g_comb (first : string * A) (ps : list (string * A)) : string * A :=
+  (fst first, comb (snd first) (map snd ps)).
+
+Definition g_merge (bp : Z) (t : list grow) : list grow :=
+  match t with
+  | [] => []
+  | _ => if all_gaps bp t then t
+         else flat_map (fun c => merge_slow g_comb bp (filter (g_on c) t)) (g_order t)
+  end.
+
+Definition g_flatten (t : list grow) : list grow :=
+  match t with
+  | [] => []
+  | _ => if no_overlap t then t
+         else flat_map (fun c => flatten_slow g_comb (filter (g_on c) t)) (g_order t)
+  end.
+
+(* subtract(table, other): `if not len(other): return table` *)
+Definition g_subtract {B} (a : list grow) (b : list (g_row B)) : list grow :=
+  match b with
+  | [] => a
+  | _ => flat_map (fun c => subtract (filter (g_on c) a) (filter (g_on c) b)) (g_chroms a)
+  end.
+
+(* intersection(other, mode="trim") *)
+Definition g_intersect {B} (a : list grow) (b : list (g_row B)) : list grow :=
+  flat_map (fun c => intersect_trim (filter (g_on c) a) (filter (g_on c) b)) (g_chroms b).
+
+Definition g_subdivide (avg mn : Z) (cut : Z -> Z -> Z -> Z) (t : list grow) : list grow :=
+  flat_map (split_row avg mn cut) (g_merge merge_bp_default t).
+
+(* chrom_sizes: None (or an empty mapping) = no upper limit; a chromosome the mapping
+   lacks gets a NaN limit, which pandas' clip ignores *)
+Definition g_size (sizes : option (string -> option Z)) (c : string) : option Z :=
+  match sizes with Some f => f c | None => None end.
+
+Definition g_resize (bp : Z) (sizes : option (string -> option Z)) (t : list grow) : list grow :=
+  let t' := map (fun r => let s := g_size sizes (g_chrom r) in
+                          (clip s (lo r - bp), clip s (hi r + bp), pay r)) t in
+  if bp <? 0 then filter (fun r => 0 <? hi r - lo r) t' else t'.
+
+Definition g_total (t : list grow) : Z :=
+  let m := g_merge total_size_bp t in
+  sumZ (map hi m) - sumZ (map lo m).
+
+(* GenomicArray.sort on a genome table: stable sort on (sorter_chrom, start, end) *)
+Definition g_proj (r : grow) : string * Z * Z := (g_chrom r, lo r, hi r).
+Definition g_sort (t : list grow) : list grow := sort_regions g_proj t.
+
+End Genome.
